@@ -121,6 +121,12 @@ Definition tachys_void : list bytes := Eval vm_compute in map bs
 Definition tachys_raw : list bytes := Eval vm_compute in map bs ["noscript"; "script"; "style"; "textarea"]%string.
 
 Definition k_textarea : bytes := Eval vm_compute in bs "textarea".
+Definition k_svg : bytes := Eval vm_compute in bs "svg".
+Definition k_math : bytes := Eval vm_compute in bs "math".
+(** [is_ambiguous_element]: resolved by the namespace of the parent *)
+Definition macro_ambiguous : list bytes := Eval vm_compute in map bs ["a"; "script"; "style"; "title"]%string.
+(** [is_svg_html_integration_point]: their content is parsed as HTML *)
+Definition svg_integration : list bytes := Eval vm_compute in map bs ["foreignObject"; "desc"; "title"]%string.
 Definition k_class : bytes := Eval vm_compute in bs "class".
 Definition k_style : bytes := Eval vm_compute in bs "style".
 
@@ -164,17 +170,24 @@ Definition i_attr (a : attr) : list (bytes * option bytes) :=
   | _ => []                                       (* not reached on an inert subtree *)
   end.
 
-Fixpoint inert_node (escape : bool) (n : node) : bytes :=
+(** [inert_element_to_tokens]. [foreign] = the node lies in SVG / MathML content (for the root: the
+    parent's namespace is Svg or Math): there every element, <style> and <script> included, is an
+    ordinary element to the HTML parser, so its text is escaped; inside the HTML integration points
+    (foreignObject, desc, title) the rule by element name applies again. *)
+Fixpoint inert_node (foreign escape : bool) (n : node) : bytes :=
   match n with
   | NText s => if escape then enc_text s else s
   | NElem tag attrs ch =>
-      let escape' := negb (mem tag macro_raw) in
+      let foreign_el := foreign || beq tag k_svg || beq tag k_math in
+      let escape' := foreign_el || negb (mem tag macro_raw) in
+      let foreign' := foreign_el && negb (mem tag svg_integration) in
       [60] ++ tag ++ print_attrs (flat_map i_attr attrs) ++ [62] ++
       (if mem tag macro_void then []
-       else flat_map (inert_node escape') ch ++ [60; 47] ++ tag ++ [62])
+       else flat_map (inert_node foreign' escape') ch ++ [60; 47] ++ tag ++ [62])
   | NBlock _ | NFrag _ | NComment => []            (* [_ => {}] *)
   end.
-Definition inert_html (n : node) : bytes := inert_node true n.
+(** an inert element below an HTML parent *)
+Definition inert_html (n : node) : bytes := inert_node false true n.
 
 (** ---- builder path, attributes ---- *)
 Definition is_tuple (a : attr) : bool :=
@@ -274,30 +287,55 @@ Definition thread {A} (f : position -> A -> bytes * position)
     and the result is escaped as a whole *)
 Definition b_whole (tag : bytes) : bool := negb (b_escape tag) && beq tag k_textarea.
 
+(** [TagType]: the namespace handed down to the children of an element *)
+Inductive ptype := PUnknown | PHtml | PSvg | PMath.
+Definition is_foreign (pt : ptype) : bool := match pt with PSvg | PMath => true | _ => false end.
+(** an ambiguous name below an SVG parent is built with tachys::svg::name() (never void, children
+    escaped); below Unknown / Html / Math with the HTML constructor *)
+Definition svg_ctor (pt : ptype) (tag : bytes) : bool :=
+  negb (is_custom tag) && mem tag macro_ambiguous && match pt with PSvg => true | _ => false end.
+Definition b_void_p (pt : ptype) (tag : bytes) : bool := if svg_ctor pt tag then false else b_void tag.
+Definition b_escape_p (pt : ptype) (tag : bytes) : bool := if svg_ctor pt tag then true else b_escape tag.
+Definition b_whole_p (pt : ptype) (tag : bytes) : bool := negb (b_escape_p pt tag) && beq tag k_textarea.
+(** [parent_type] after the element picked its constructor, then [child_type] *)
+Definition own_type (pt : ptype) (tag : bytes) : ptype :=
+  if is_custom tag then pt
+  else if mem tag macro_svg then PSvg
+  else if mem tag macro_mathml then PMath
+  else if mem tag macro_ambiguous then pt
+  else PHtml.
+Definition child_type (pt : ptype) (tag : bytes) : ptype :=
+  match own_type pt tag with
+  | PSvg => if mem tag svg_integration then PHtml else PSvg
+  | t => t
+  end.
+
 (** [node_to_tokens] followed by [to_html_with_buf] of what it built.
     [io] = inert-HTML optimisation enabled ([view!]; false for [template!] and for the
-    "builder path" of the theorems); [top] = [top_level]. *)
-Fixpoint r_node (io top escape : bool) (pos : position) (n : node) {struct n} : bytes * position :=
+    "builder path" of the theorems); [top] = [top_level]; [pt] = [parent_type]. *)
+Fixpoint r_node (io top escape : bool) (pt : ptype) (pos : position) (n : node) {struct n}
+  : bytes * position :=
   match n with
   | NText s => if is_nil s then ([], pos) else r_text escape pos s
   | NBlock s => r_text escape pos s
-  | NFrag ch => thread (fun pos x => r_node io true escape pos x) pos ch
+  | NFrag ch => thread (fun pos x => r_node io true escape pt pos x) pos ch
   | NComment => ([], pos)
   | NElem tag attrs ch =>
-      if negb top && io && is_inert_element n then (inert_node true n, PNext)
+      if negb top && io && is_inert_element n then (inert_node (is_foreign pt) true n, PNext)
       else
         let body :=
           if mem tag macro_void then []
           else
-            let raw := fst (thread (fun pos x => r_node io false (b_escape tag) pos x) PFirst ch) in
-            if b_whole tag then enc_text raw else raw in
+            let raw := fst (thread (fun pos x => r_node io false (b_escape_p pt tag) (child_type pt tag) pos x)
+                                   PFirst ch) in
+            if b_whole_p pt tag then enc_text raw else raw in
         ([60] ++ tag ++ print_attrs (b_attr_list attrs) ++ [62]
-         ++ (if b_void tag then [] else body ++ [60; 47] ++ tag ++ [62]),
+         ++ (if b_void_p pt tag then [] else body ++ [60; 47] ++ tag ++ [62]),
          PNext)
   end.
 
-Definition r_list (io top escape : bool) (pos : position) (l : list node) : bytes * position :=
-  thread (fun pos x => r_node io top escape pos x) pos l.
+Definition r_list (io top escape : bool) (pt : ptype) (pos : position) (l : list node) : bytes * position :=
+  thread (fun pos x => r_node io top escape pt pos x) pos l.
 
 (** does [node_to_tokens] return [Some] for this node? (empty literals and fragments without
     such a node yield no tokens) *)
@@ -312,7 +350,7 @@ Fixpoint has_tokens (n : node) : bool :=
 (** [render_view] + [to_html()]: 1 node = that node at top level, more = a fragment; if nothing
     yields tokens the view is [()], which renders as a lone marker (view/tuples.rs) *)
 Definition view_html (io : bool) (t : list node) : bytes :=
-  if existsb has_tokens t then fst (r_list io true true PFirst t) else marker.
+  if existsb has_tokens t then fst (r_list io true true PUnknown PFirst t) else marker.
 (** the builder path alone: the inert optimisation disabled ([template!], or no eligible subtree) *)
 Definition builder_html (t : list node) : bytes := view_html false t.
 
